@@ -195,6 +195,10 @@ func buildStreamFieldMappingConverter[I any]() func(input streamReader) streamRe
 				var i I
 				return i, err
 			}
+			if t == nil {
+				var i I // a nil value mapped to an interface-typed input
+				return i, nil
+			}
 			return t.(I), nil
 		}))
 	}
@@ -221,6 +225,15 @@ func convertTo(mappings map[string]any, typ reflect.Type) (any, error) {
 func assignOne(destValue reflect.Value, taken any, to string) (reflect.Value, error) {
 	if len(to) == 0 { // assign to output directly
 		toSet := reflect.ValueOf(taken)
+		if !toSet.IsValid() {
+			// an untyped nil: the zero value of a destination that can be nil
+			switch destValue.Kind() {
+			case reflect.Map, reflect.Slice, reflect.Ptr, reflect.Interface:
+				return destValue, nil
+			default:
+				return destValue, fmt.Errorf("mapping entire value from nil to type=%v, which cannot be nil", destValue.Type())
+			}
+		}
 		if !toSet.Type().AssignableTo(destValue.Type()) {
 			return destValue, fmt.Errorf("mapping entire value has a mismatched type. from=%v, to=%v", toSet.Type(), destValue.Type())
 		}
@@ -261,7 +274,7 @@ func assignOne(destValue reflect.Value, taken any, to string) (reflect.Value, er
 				}
 
 				if !toSet.IsValid() {
-					destValue.Interface().(map[string]any)[path] = nil
+					destValue.SetMapIndex(key, reflect.Zero(destValue.Type().Elem()))
 				} else {
 					destValue.SetMapIndex(key, toSet)
 				}
@@ -544,12 +557,11 @@ func checkAndExtractToMapKey(toMapKey string, output, toSet reflect.Value) (key 
 	}
 
 	if !toSet.IsValid() {
-		if output.Type() != reflect.TypeOf(map[string]any{}) {
-			return reflect.Value{}, fmt.Errorf("field mapping from a zero reflect.Value to map field whose map type is not map[string]any: %v", output.Type())
-		}
-
 		switch output.Type().Elem().Kind() {
 		case reflect.Map, reflect.Slice, reflect.Ptr, reflect.Interface:
+			if output.IsNil() {
+				output.Set(reflect.MakeMap(output.Type()))
+			}
 			return reflect.ValueOf(toMapKey), nil
 		default:
 			return reflect.Value{}, fmt.Errorf("field mapping from a zero reflect.Value to type=%v, which cannot be nil", output.Type().Elem())
@@ -644,6 +656,13 @@ func takeOne(inputValue reflect.Value, inputType reflect.Type, from string) (tak
 		inputValue = inputValue.Elem()
 		if !inputValue.IsValid() {
 			// a nil pointer / nil interface has no field to take: a request-time error, not a panic
+			return nil, nil, &errInterfaceNotValidForFieldMapping{
+				interfaceType: inputType,
+				actualType:    actualType,
+			}
+		}
+		if inputValue.Kind() != reflect.Struct {
+			// a pointer to (or an interface holding) something that has no fields: a request-time error
 			return nil, nil, &errInterfaceNotValidForFieldMapping{
 				interfaceType: inputType,
 				actualType:    actualType,
